@@ -22,7 +22,7 @@ from ..term import Resolver, pmatch, find_all, abstract, anf_of
 from ..seq import Layouts, UNKNOWN, show
 
 FLOORS = {"component-gradients-exact": 15, "state-refreshed": 1, "float-arithmetic": 1, "lml-form": 2, "lml-gradient-form": 2, "factor-of": 2, "loo-form": 3, "loo-gradient-form": 2,
-          "slice-layout": 7, "bounds-passed": 2, "multistart": 1, "selector-wiring": 2}
+          "slice-layout": 7, "bounds-passed": 2, "multistart": 1, "selector-wiring": 2, "scratch-owned": 10}
 
 
 def _scalar_broadcast(fn, grad_lists):
@@ -163,6 +163,13 @@ def run(prog, tier):
     obs, info = [], []
     obs.extend(shared)
     problems = []
+
+    # ---------------------------------------------------------------- every evaluation starts from freshly built matrices
+    from .common import scratch_owned_obligations
+    so = scratch_owned_obligations(prog, "scratch-owned", [prog.cls("GpRegressor")])
+    obs.extend(so)
+    if any(not o.ok for o in so):
+        return obs, {}, {"explanation": "a kept matrix is updated in place by a score evaluation; formula rules not evaluated"}
 
     # ---------------------------------------------------------------- gradient lists are walked in order
     for mname in ("marginal_likelihood_gradient", "loo_likelihood_gradient"):
@@ -378,6 +385,8 @@ def run(prog, tier):
     obs.extend(dtype_hazard_obligations(prog, "float-arithmetic", ['inference/gp/regression.py']))
     from .common import call_order_obligations
     obs.extend(call_order_obligations(prog, "arguments-in-order", ['inference/gp/regression.py']))
+    from .common import identity_memo_obligations
+    obs.extend(identity_memo_obligations(prog, "result-keyed-on-values", ['inference/gp/regression.py']))
 
     obs.append(refresh_obligation(prog, "state-refreshed", "GpRegressor", "set_hyperparameters"))
 
